@@ -15,6 +15,10 @@
      TLS <= 1.2 ServerHello constructions take `random`, i.e. the value the writes act on; scsv_check = scsv_hit; hrr_second_hello_compare = hrr_second_ok;
      finished_compare = the zl_eqb tests on received Finished values (full equality);
      binder_compare = binder_ok.
+   * client_hello_sites / client_suite_sites.  client_hello_suites / client_first_hello: the list starts
+     with the renegotiation SCSV, TLS_FALLBACK_SCSV is appended to wireCipherSuites iff
+     settings.sendFallbackSCSV, and BOTH ClientHello.create calls (with and without an offered session id)
+     pass wireCipherSuites.
    * guard_positions.  sentinel checks directly after _clientGetServerHello and before any key
      exchange; SCSV after version selection and before any ServerHello is built. *)
 From Coq Require Import List String.
@@ -64,4 +68,24 @@ Definition expected_guard_positions : list (string * string * string) := [
   ("tlslite/tlsconnection.py", "_handshakeClientAsyncHelper", "call:_clientGetServerHello < sentinel_check < sentinel_check < call:_clientTLS13Handshake < call:_clientResume < call:_clientKeyExchange");
   ("tlslite/tlsconnection.py", "_handshakeServerAsyncHelper", "call:_serverTLS13Handshake < sentinel_write < sentinel_write < server_hello_create");
   ("tlslite/tlsconnection.py", "_serverGetClientHello", "version_assigned < version_assigned < version_assigned < scsv_check < sentinel_write < sentinel_write < server_hello_create < call:_server_select_certificate < server_hello_create < hrr_second_hello_compare")
+].
+
+Definition expected_client_hello_sites : list (string * string * string * string * string * string) := [
+  ("tlslite/tlsconnection.py", "_clientSendClientHello", "if session and session.sessionID && else session.cipherSuite not in cipherSuites", "sent_version", "session.sessionID", "wireCipherSuites");
+  ("tlslite/tlsconnection.py", "_clientSendClientHello", "else session and session.sessionID", "sent_version", "session_id", "wireCipherSuites")
+].
+
+Definition expected_client_suite_sites : list (string * string * string * string) := [
+  ("tlslite/tlsconnection.py", "_clientSendClientHello", "", "cipherSuites = [CipherSuite.TLS_EMPTY_RENEGOTIATION_INFO_SCSV]");
+  ("tlslite/tlsconnection.py", "_clientSendClientHello", "if srpParams", "cipherSuites += CipherSuite.getSrpAllSuites(settings)");
+  ("tlslite/tlsconnection.py", "_clientSendClientHello", "else srpParams && if certParams", "cipherSuites += CipherSuite.getTLS13Suites(settings)");
+  ("tlslite/tlsconnection.py", "_clientSendClientHello", "else srpParams && if certParams", "cipherSuites += CipherSuite.getEcdsaSuites(settings)");
+  ("tlslite/tlsconnection.py", "_clientSendClientHello", "else srpParams && if certParams", "cipherSuites += CipherSuite.getEcdheCertSuites(settings)");
+  ("tlslite/tlsconnection.py", "_clientSendClientHello", "else srpParams && if certParams", "cipherSuites += CipherSuite.getDheCertSuites(settings)");
+  ("tlslite/tlsconnection.py", "_clientSendClientHello", "else srpParams && if certParams", "cipherSuites += CipherSuite.getCertSuites(settings)");
+  ("tlslite/tlsconnection.py", "_clientSendClientHello", "else srpParams && if certParams", "cipherSuites += CipherSuite.getDheDsaSuites(settings)");
+  ("tlslite/tlsconnection.py", "_clientSendClientHello", "else srpParams && else certParams && if anonParams", "cipherSuites += CipherSuite.getEcdhAnonSuites(settings)");
+  ("tlslite/tlsconnection.py", "_clientSendClientHello", "else srpParams && else certParams && if anonParams", "cipherSuites += CipherSuite.getAnonSuites(settings)");
+  ("tlslite/tlsconnection.py", "_clientSendClientHello", "", "wireCipherSuites = list(cipherSuites)");
+  ("tlslite/tlsconnection.py", "_clientSendClientHello", "if settings.sendFallbackSCSV", "wireCipherSuites.append(CipherSuite.TLS_FALLBACK_SCSV)")
 ].
